@@ -11,6 +11,8 @@
 //! Tasks:
 //!   {"k":"mut","c":case,"e":[edit..],"acc":[variant..]}   mutated honest proof of case c
 //!   {"k":"raw","c":case,"b":hex,"acc":[variant..]}        arbitrary bytes as a proof for case c
+//!   {"k":"cross","c":case,"src":case2,"e":[edit..],"acc":[..]}   (mutated) proof of case2 verified as a proof of case c
+//!   any proof task: "pd": n   adds n to the first public input value given to the verifier
 //!   {"k":"dec","d":decoder,"f":field,"h":hash,"x":ext,"b":hex,"a":[args]}   component decoder
 //! Edits (offsets refer to the ORIGINAL bytes, sites never overlap):
 //!   {"o":off,"x":mask}                          xor one byte
@@ -96,7 +98,7 @@ struct Honest {
     parsed: Option<Parsed>,
 }
 
-fn proof_task(h: &mut Honest, bytes: &[u8], acc: &[String], compare: bool) -> Value {
+fn proof_task(h: &mut Honest, bytes: &[u8], acc: &[String], compare: bool, pub_delta: u32) -> Value {
     let (de, proof) = deser(bytes);
     let mut res = json!({"de": de.json(), "len": bytes.len(), "fnv": fnv(bytes)});
     let Some(proof) = proof else {
@@ -108,7 +110,7 @@ fn proof_task(h: &mut Honest, bytes: &[u8], acc: &[String], compare: bool) -> Va
     let mut ve = serde_json::Map::new();
     let mut accepted = false;
     for v in acc {
-        let o = r.verify(&h.case, proof.clone(), v);
+        let o = r.verify(&h.case, proof.clone(), v, pub_delta);
         if matches!(o, Out3::Ok) {
             accepted = true;
         }
@@ -190,17 +192,25 @@ pub fn main(args: &[String]) -> i32 {
             .map(|a| a.iter().filter_map(|x| x.as_str().map(|s| s.to_string())).collect())
             .unwrap_or_default();
         let mut res = match kind {
-            "mut" | "raw" => {
+            "mut" | "raw" | "cross" => {
                 let c = t["c"].as_u64().unwrap_or(0) as usize;
+                let src_bytes: Option<Vec<u8>> = if kind == "cross" {
+                    honest.get(t["src"].as_u64().unwrap_or(0) as usize).and_then(|h| h.as_ref()).map(|h| h.bytes.clone())
+                } else {
+                    None
+                };
                 match honest.get_mut(c).and_then(|h| h.as_mut()) {
                     None => json!({"tool_error": "unknown case"}),
                     Some(h) => {
                         let bytes = if kind == "mut" {
                             apply_edits(&h.bytes, t["e"].as_array().map(|v| v.as_slice()).unwrap_or(&[]))
+                        } else if kind == "cross" {
+                            apply_edits(&src_bytes.unwrap_or_default(), t["e"].as_array().map(|v| v.as_slice()).unwrap_or(&[]))
                         } else {
                             unhex(t["b"].as_str().unwrap_or(""))
                         };
-                        match catch(|| proof_task(h, &bytes, &acc, true)) {
+                        let pd = t["pd"].as_u64().unwrap_or(0) as u32;
+                        match catch(|| proof_task(h, &bytes, &acc, true, pd)) {
                             Ok(v) => v,
                             Err(p) => json!({"tool_error": format!("harness panic: {p}")}),
                         }
